@@ -89,6 +89,11 @@ func QuoteOrNIL(str string) string {
 	if str == "" {
 		return "NIL"
 	}
+	// A quoted string cannot carry CR or LF (RFC 3501 section 4.3): such a
+	// value, e.g. a header value with a bare CR, is sent as a literal
+	if strings.ContainsAny(str, "\r\n") {
+		return fmt.Sprintf("{%d}\r\n%s", len(str), str)
+	}
 	// Escape quotes and backslashes in the string
 	str = strings.ReplaceAll(str, "\\", "\\\\")
 	str = strings.ReplaceAll(str, "\"", "\\\"")
